@@ -10,7 +10,7 @@ operand (or an explicit cast / initialiser / argument / return), which is where 
 operator whose operands are *all* unsuffixed typed constants is excluded (HLSL would evaluate it as literal arithmetic).
 -/
 namespace RsslVerif.Spec.Sem
-open RsslVerif.Gen.HlslGenTables RsslVerif.Model
+open RsslVerif.Gen.HlslGenTables RsslVerif.Gen.HlslIntrinsicTables RsslVerif.Model
 open RsslVerif.Model.Ir (Ty Var Const Dir)
 
 namespace Ir
@@ -37,6 +37,13 @@ def typeOf (sig : Sig) (vty : Var → Ty) : Expr → Option Ty
     match sig f with
     | none => none
     | some (rt, ps) => if argsOK sig vty args ps then some rt else none
+  | .intr i T ret args =>
+    -- the resolved signature is (T, …, T) → ret with ret as HLSL defines it; at least one argument
+    match args with
+    | .nil => none
+    | .cons _ _ =>
+      if allTy sig vty T args ∧ ret = Ast.builtinRet i T ∧ Ast.modelledBuiltin i = true ∧ T ≠ .lit ∧ T ≠ .flit then some ret
+      else none
   | .op o args =>
     match args with
     | .cons a .nil =>
@@ -64,6 +71,13 @@ def argsOK (sig : Sig) (vty : Var → Ty) : Exprs → List (Dir × Ty) → Bool
     (match typeOf sig vty e with
       | some t => decide (t = T) && (decide (d = .in_) || (lvalOf e).isSome)
       | none => false) && argsOK sig vty r ps
+/-- every argument has type `T` -/
+def allTy (sig : Sig) (vty : Var → Ty) (T : Ty) : Exprs → Bool
+  | .nil => true
+  | .cons e r =>
+    (match typeOf sig vty e with
+      | some t => decide (t = T)
+      | none => false) && allTy sig vty T r
 def typeOfSeq (sig : Sig) (vty : Var → Ty) : Exprs → Option Ty
   | .nil => none
   | .cons e r =>
@@ -80,6 +94,11 @@ def litlike : Expr → Bool
   | .lit (.int32 _) => true
   | _ => false
 
+/-- all arguments are unsuffixed typed constants (a built-in applied to them would be resolved at literal type) -/
+def allLitlike : Exprs → Bool
+  | .nil => true
+  | .cons e r => litlike e && allLitlike r
+
 mutual
 def litOK : Expr → Bool
   | .lit _ => true
@@ -89,6 +108,7 @@ def litOK : Expr → Bool
   | .tern c t f => litOK c && litOK t && litOK f && !(litlike t && litlike f)
   | .seq es => litOKSeq es
   | .call _ args => litOKArgs args
+  | .intr _ _ _ args => litOKArgs args
   | .op _ args =>
     match args with
     | .cons a .nil => litOK a && !litlike a
@@ -126,27 +146,31 @@ def okForInit (sig : Sig) (vty : Var → Ty) : ForInit → Bool
   | .defs ds => ds.all fun d => okVarDef sig vty d.1 d.2
 
 mutual
-/-- statements the type checker accepted inside a function returning `rt` -/
-def wtStmt (sig : Sig) (vty : Var → Ty) (rt : Ty) : Stmt → Bool
+/-- statements the type checker accepted inside a function returning `rt`; `lt` = the type of the controlling
+expression when the statement sits directly in the block of a `switch` (labels are only accepted there) -/
+def wtStmt (sig : Sig) (vty : Var → Ty) (rt : Ty) (lt : Option Ty) : Stmt → Bool
   | .expr e => okExpr sig vty e
   | .var id init => okVarDef sig vty id init
-  | .block b => wtStmts sig vty rt b
-  | .ifThen c b => okExpr sig vty c && wtStmts sig vty rt b
-  | .ifElse c t f => okExpr sig vty c && wtStmts sig vty rt t && wtStmts sig vty rt f
-  | .for init cond inc b => okForInit sig vty init && okOpt sig vty cond && okOpt sig vty inc && wtStmts sig vty rt b
-  | .while c b => okExpr sig vty c && wtStmts sig vty rt b
-  | .doWhile b c => wtStmts sig vty rt b && okExpr sig vty c
+  | .block b => wtStmts sig vty rt none b
+  | .ifThen c b => okExpr sig vty c && wtStmts sig vty rt none b
+  | .ifElse c t f => okExpr sig vty c && wtStmts sig vty rt none t && wtStmts sig vty rt none f
+  | .for init cond inc b => okForInit sig vty init && okOpt sig vty cond && okOpt sig vty inc && wtStmts sig vty rt none b
+  | .while c b => okExpr sig vty c && wtStmts sig vty rt none b
+  | .doWhile b c => wtStmts sig vty rt none b && okExpr sig vty c
   | .break => true
   | .continue => true
   | .ret none => true
   | .ret (some e) => okExprT sig vty rt e
-def wtStmts (sig : Sig) (vty : Var → Ty) (rt : Ty) : Stmts → Bool
+  | .switch T c b => okExprT sig vty T c && decide (T ≠ .lit) && wtStmts sig vty rt (some T) b
+  | .caseLabel c => decide (lt = some c.ty) || (decide (c.ty = .lit) && lt.isSome)
+  | .defaultLabel => lt.isSome
+def wtStmts (sig : Sig) (vty : Var → Ty) (rt : Ty) (lt : Option Ty) : Stmts → Bool
   | .nil => true
-  | .cons s r => wtStmt sig vty rt s && wtStmts sig vty rt r
+  | .cons s r => wtStmt sig vty rt lt s && wtStmts sig vty rt lt r
 end
 
 def wtFunc (sig : Sig) (vty : Var → Ty) (fn : Func) : Bool :=
-  wtStmts sig vty fn.ret fn.body && fn.params.all fun p => decide (vty (.loc p.1) = p.2.2)
+  wtStmts sig vty fn.ret none fn.body && fn.params.all fun p => decide (vty (.loc p.1) = p.2.2)
 
 end Ir
 end RsslVerif.Spec.Sem
